@@ -538,6 +538,14 @@ def vec_validate(trace, work):
                 props.add("C05")
         if cl in ("unexplained-diff", "diffs-missing") and not lag:
             props.add("C05")
+        #  C08 "after the vector is dropped the stream delivers what is still pending and then ends, and at that point the
+        #       replica equals the vector's final contents, whether or not the subscriber had fallen behind": a poll after
+        #       the drop that ends the stream on a Reset which does not carry the final contents (seed AA02)
+        if cl == "reset-not-current" and d.get("alive") is False and d.get("end") == "End":
+            groups = [g for g in d.get("items", []) if g]
+            last = groups[-1][-1] if groups else None
+            if isinstance(last, dict) and last.get("k") == "Reset" and last.get("vs") != d.get("vals"):
+                props.add("C08")
         if cl == "runaway":          # the poll panicked (or never settled): nothing can be replayed from this stream
             props.add("C05")
             if many and not lag:
@@ -579,7 +587,10 @@ def vec_pipeline(prop, tier, seed, work, t0):
              ("SpecTxnCore", dict(pre, Caps={1}, Depth=7 if quick else 8, InitLens={1}), "edge"),
              ("SpecLag", dict(pre, Caps={1}, Depth=6 if quick else 7, InitLens={1}, PreSubs={2}), "tree"),
              ("SpecLag", dict(pre, Caps={2}, Depth=5 if quick else 6, InitLens={1}, PreSubs={2}), "tree"),
-             ("SpecLagDeep", dict(pre, Caps={3, 5}, Depth=7 if quick else 8, InitLens={1}, PreSubs={1}, MaxLen=12), "tree")],
+             ("SpecLagDeep", dict(pre, Caps={3, 5}, Depth=7 if quick else 8, InitLens={1}, PreSubs={1}, MaxLen=12), "tree"),
+             # every path through a small transaction body (not only one per model transition: the code keeps its own
+             # record of the batch), then commit and poll: "Pending means up to date" after a commit (seed AB03)
+             ("SpecTxnCore", dict(pre, Caps={1}, Depth=5 if quick else 6, InitLens={1}, PreSubs={1}), "tree")],
         C07=[("SpecTxn", dict(Caps={1, 16}, Depth=5 if quick else 6, SubIds={1}), "edge"),
              ("SpecTxnSmall", dict(pre, Caps={16}, Depth=6 if quick else 7), "edge"),
              ("SpecTxnCore", dict(pre, Caps={16}, Depth=8 if quick else 9), "edge"),
@@ -589,7 +600,9 @@ def vec_pipeline(prop, tier, seed, work, t0):
         C08=[("SpecStreams", dict(Caps={1, 2}, Depth=6 if quick else 7, SubIds={1}, MaxLen=2), "edge"),
              ("SpecStreamsPre", dict(pre, Caps={1, 2}, Depth=4 if quick else 5), "edge"),
              ("SpecEnd", dict(pre, Caps={1, 2, 8}, Depth=6 if quick else 7, InitLens={1}, PreSubs={2}, MaxLen=6), "tree"),
-             ("SpecLag", dict(pre, Caps={1, 2} if quick else {1, 2, 8}, Depth=4 if quick else 6, InitLens={1}, PreSubs={2}), "tree"),
+             ("SpecLag", dict(pre, Caps={1, 2} if quick else {2, 8}, Depth=4 if quick else 6, InitLens={1}, PreSubs={2}), "tree"),
+             # deep enough for "behind by more than the capacity, newest message a commit, drop, poll" (seed AA02)
+             ("SpecLag", dict(pre, Caps={1}, Depth=6 if quick else 7, InitLens={1}, PreSubs={2}), "tree"),
              ("SpecTxnSubs", dict(pre, Caps={2}, Depth=5 if quick else 6, InitLens={1}, PreSubs={1, 2}), "tree")],
         C17=[("SpecMut", dict(Caps={16}, Depth=4 if quick else 5, MaxLen=3, SubIds={1}), "edge")],
     )
